@@ -139,6 +139,8 @@ struct explorer
         if (n + 2 <= g_max_iter) o.push_back('R');
         o.push_back('l');
         for (sz k = 0; k <= n + 1; ++k) o.push_back(char('0' + k));
+        // arguments far beyond the number of results (congruent to valid ones modulo 2^32, and the extremes)
+        o.push_back('a'); o.push_back('b'); o.push_back('c');
         return o;
     }
 
@@ -165,7 +167,7 @@ struct explorer
         }
         else
         {
-            sz const k = sz(op - '0');
+            sz const k = op == 'a' ? (sz(1) << 32) : op == 'b' ? (sz(1) << 32) + n : op == 'c' ? (sz(1) << 63) + 1 : sz(op - '0');
             bool threw = false;
             try { s.c.rollback(k); }
             catch (std::out_of_range const&) { threw = true; }
@@ -182,12 +184,12 @@ struct explorer
         s.hist += op;
         // oracle: the checkpoint is the golden one for its number of results
         sz const now = s.c.results().size();
-        sz const expect_n = (op == 'r') ? n + 1 : (op == 'R') ? n + 2 : (op == 'l') ? n : sz(op - '0');
+        sz const expect_n = (op == 'r') ? n + 1 : (op == 'R') ? n + 2 : (op == 'l' || op >= 'a') ? n : sz(op - '0');
         if (now != expect_n) { r.violate("wrong-number-of-results", id, id + ": " + std::to_string(now) + " results, expected " + std::to_string(expect_n)); return false; }
         std::string const text = text_of(s.c);
         if (text != golden[now])
         {
-            std::string key = (op == 'r' || op == 'R') ? "resume-differs-from-original-run" : (op == 'l') ? "reload-changes-text" : (sz(op - '0') == n ? "rollback-to-n-changes-checkpoint" : "rollback-differs-from-short-run");
+            std::string key = (op == 'r' || op == 'R') ? "resume-differs-from-original-run" : (op == 'l') ? "reload-changes-text" : (op < 'a' && sz(op - '0') == n ? "rollback-to-n-changes-checkpoint" : "rollback-differs-from-short-run");
             std::string const d = vf::first_difference(text, golden[now]);
             r.violate(key, id, id + ": text differs from the run that performed only " + std::to_string(now) + " iterations: " + d);
             return false;
